@@ -199,8 +199,17 @@ def run_case(case, ctx):
             model = eng.estimate(list(tuples), total=supplied, engine='MD')
             judge('factored', model.total)
         if 'local' in case['targets']:
-            eng = m.LocalInference(dom, iters=1, marginal_oracle=case['oracle_kind'])
-            model = eng.estimate(list(tuples), total=supplied)
+            if case['sub_seed'] % 3 == 0:
+                # a ready-made oracle object: LocalInference assigns it the total (model.total = total)
+                cl_ = [tuple(p) if not isinstance(p, str) else (p,) for _q, _y, _s, p in tuples]
+                orc = m.RegionGraph(dom, cl_, 55.0, convex=(case['oracle_kind'] != 'approx'), iters=1) if case['oracle_kind'] != 'pairwise' \
+                    else m.FactorGraph(dom, cl_, 55.0, convex=False, iters=1)
+                orc.potentials = m.CliqueVector.zeros(dom, orc.cliques)
+                eng = m.LocalInference(dom, iters=1, marginal_oracle=orc)
+                ctx.tag('local:ready_made_oracle_object')
+            else:
+                eng = m.LocalInference(dom, iters=1, marginal_oracle=case['oracle_kind'])
+            model = eng.estimate([(q_, y_, s_, tuple(p_) if not isinstance(p_, str) else (p_,)) for q_, y_, s_, p_ in tuples], total=supplied)
             judge('local', model.total)
         if 'public' in case['targets']:
             rng = np.random.RandomState(case['sub_seed'])
